@@ -560,13 +560,18 @@ def run_bfs(item, col):
 
 
 # ------------------------------------------------------------------ constructor / set_observed items
-def _ctor_arrays(lab):
+# plate names that are equal up to surrounding whitespace / case: they are DIFFERENT plates (or the constructor refuses)
+LOOKALIKE_NAMES = ["P1", "P1 ", " P1", "p1", "P1\t"]
+
+
+def _ctor_arrays(lab, names=None):
+    names = PLATE_NAMES if names is None else names
     n = len(lab)
     return dict(
         treatment_names=np.array([["a", "b"] if i % 3 != 2 else ["a", CTL] for i in range(n)], dtype=str),
         treatment_doses=np.array([[1.0 + i, 0.5] if i % 3 != 2 else [1.0 + i, 0.0] for i in range(n)], dtype=float),
         sample_names=np.array([f"s{i % 2}" for i in range(n)], dtype=str),
-        plate_names=np.array([PLATE_NAMES[v] for v in lab], dtype=str),
+        plate_names=np.array([names[v] for v in lab], dtype=str),
         control_treatment_name=CTL,
     )
 
@@ -575,11 +580,11 @@ def _ctor_obs(n):
     return np.array([0.11 + 0.1 * i for i in range(n)], dtype=float)
 
 
-def ctor_case(lab, mode, mask_bits):
+def ctor_case(lab, mode, mask_bits, lookalike=False):
     """mode: 'mask' (observations + mask), 'nomask' (observations only), 'noobs' (neither).
     Returns list of verdicts and an outcome tuple."""
     n = len(lab)
-    kw = _ctor_arrays(lab)
+    kw = _ctor_arrays(lab, LOOKALIKE_NAMES if lookalike else None)
     given = [bool(mask_bits >> i & 1) for i in range(n)]
     if mode != "noobs":
         kw["observations"] = _ctor_obs(n)
@@ -602,6 +607,15 @@ def ctor_case(lab, mode, mask_bits):
     got = [bool(x) for x in s.observation_mask]
     if mixed:
         bad.append(("C12|constructor|mixed-accepted", f"constructor accepted plates {lab} with mask {given}: a plate is partly observed"))
+    else:
+        # the plates as batchie itself sees them (by plate id, through its views) are wholly observed or wholly unobserved
+        ids = np.asarray(s.plate_ids)
+        for pid in sorted(set(ids.tolist())):
+            if len({got[i] for i in np.flatnonzero(ids == pid)}) > 1:
+                bad.append(("C12|constructor|plate-id-partly-observed",
+                            f"constructor accepted plate names {kw['plate_names'].tolist()} with mask {got}: plate id {pid} covers rows "
+                            f"{np.flatnonzero(ids == pid).tolist()} of different observation status"))
+                break
     want = {"mask": given, "nomask": [True] * n, "noobs": [False] * n}[mode]
     if got != want and not mixed:
         sig = {"mask": "mask-altered", "nomask": "no-mask-not-all-observed", "noobs": "no-observations-not-all-unobserved"}[mode]
@@ -612,9 +626,9 @@ def ctor_case(lab, mode, mask_bits):
 def run_ctor(item, col):
     for lab in item["labellings"]:
         n = len(lab)
-        for mode, masks in (("mask", range(1 << n)), ("nomask", [0]), ("noobs", [0])):
+        for mode, masks, look in (("mask", range(1 << n), False), ("nomask", [0], False), ("noobs", [0], False), ("mask", range(1 << n), True)):
             for m in masks:
-                bad, outcome, refused = ctor_case(lab, mode, m)
+                bad, outcome, refused = ctor_case(lab, mode, m, lookalike=look)
                 col.evaluations += 1
                 col.states += 1
                 col.transitions += 1
@@ -625,7 +639,7 @@ def run_ctor(item, col):
                 if mode == "mask" and 0 < m < (1 << n) - 1:
                     col.nontriv("ctor", lab, m)
                 for sig, msg in bad:
-                    col.violation(sig, msg, {"kind": "ctor", "labelling": lab, "mode": mode, "mask": m})
+                    col.violation(sig, msg, {"kind": "ctor", "labelling": lab, "mode": mode, "mask": m, "lookalike": look})
     col.sample({"kind": "ctor", "labellings": item["labellings"][-2:]})
 
 
@@ -717,7 +731,7 @@ def run_item(item, col, tier):
 def replay(case, col):
     kind = case["kind"]
     if kind == "ctor":
-        bad, outcome, _ = ctor_case(case["labelling"], case["mode"], case["mask"])
+        bad, outcome, _ = ctor_case(case["labelling"], case["mode"], case["mask"], lookalike=bool(case.get("lookalike")))
         col.evaluations += 1
         print("constructor:", case, "->", outcome)
         for sig, msg in bad:
